@@ -294,8 +294,8 @@ def check_C05(ctx):
     if ctx.tier == "thorough":
         generated_corpus(ctx, rep, ("W1", "W2", "W3", "W4", "W5", "PROB"), mode_rule=True, assoc=True, hash_rule=False)
     for name, want in exp["consts"].items():
-        if name.startswith("K_"):
-            continue
+        if name.startswith("K_") or any(x in name for x in ("_ARR", "_VEC_", "_TUPLE_", "FAKEZERO")):
+            continue        # constants of built-in containers / hand-written types belong to C17
         b = u.bodies.get("wcorpus::" + name)
         got = b.value.get("v") if (b is not None and b.value) else None
         ok = got == want
@@ -702,6 +702,15 @@ def check_C03(ctx):
     n = rules_eps.rule_eps_borrow(u, ts, rep)
     rep.floor("zero-copy eps paths analysed", n, 20)
     rules_eps.rule_align_guard(u, rep)
+    # the guard compares the address with unit(T): the borrowed &T is aligned only if unit(T) >= align_of::<T>()
+    rep.rule("M1", "folded alignment unit of every closed zero-copy type >= its native alignment (rustc layout): the address check of the alignment point then implies an aligned reference")
+    try:
+        uu, cname = units_universe(ctx)
+        nm = rules_align.rule_M1(uu, rep, cname)
+        rep.floor("closed zero-copy types folded", nm, 140)
+    except ExportError as ex:
+        msg = "\n".join(l for l in str(ex).splitlines() if l.startswith("error"))[:500]
+        rep.add("M1", "universe", "the universe of closed zero-copy types no longer compiles: " + msg)
     return ("Every borrowing path of every eps reader (built-in and corpus) is checked for provenance of the result from the consumed input bytes, absence of allocation, "
             "absence of hand-made slices, written length and alignment point. Measured allocation amounts of the deep skeleton are not decided.")
 
@@ -803,6 +812,9 @@ def check_C09(ctx):
     n = rules_loader.rule_loader_paths(u, rep, want=("LEAK", "RAW"))
     rep.floor("loaders analysed", n, 3)
     rules_loader.rule_memcase_shape(u, rep)
+    rep.rule("LEAK-PARTIAL", "deser/ and impls/: a loop that writes droppable values into uninitialised storage (ptr::write / MaybeUninit::write) and can leave early must maintain the length inside the loop or drop the written prefix itself; otherwise a failed load leaks what the elements own")
+    npl = rules_loader.rule_partial_leak(u, rep, DESER_SCOPE)
+    rep.floor("loops filling uninitialised storage with droppable values", npl, 2)
     na = rules_loader.rule_alloc_layout(u, rep)
     rep.floor("raw allocation -> Vec::from_raw_parts sites in load_mem", na, 1)
     try:
